@@ -22,6 +22,7 @@ DirsLit == {<<>>, <<Dir("skip", Lit("bool", TRUE))>>, <<Dir("include", Lit("bool
             <<Dir("include", Lit("bool", TRUE)), Dir("skip", Lit("bool", TRUE))>>, <<Dir("skip", Lit("bool", FALSE)), Dir("include", Lit("bool", FALSE))>>}
 DirsVar == {<<>>, <<Dir("skip", Lit("var", "v"))>>, <<Dir("include", Lit("var", "w"))>>}
 DirsBoth == DirsLit \cup DirsVar
+DirsSkipT == {<<>>, <<Dir("skip", Lit("bool", TRUE))>>}
 DirsVarOnly == {<<>>, <<Dir("skip", Lit("var", "v"))>>}
 VarTypesStd == [ v |-> [type |-> <<"NN", "Boolean">>, hasDefault |-> FALSE, default |-> NoLit],
                  w |-> [type |-> <<"Boolean">>, hasDefault |-> TRUE, default |-> Lit("bool", TRUE)],
